@@ -133,6 +133,22 @@ def equiv(item, fn, call_c, call_p, conc, conc_args):
             c = concrete_call(fn, args, True)
             q = concrete_call(fn, args, False)
             bad = c[0] != q[0] or (c[0] == "exc" and c[1] != q[1]) or (c[0] == "ret" and unsent(fn, c[1]) != q[1])
+            if not bad and fn == "cprNL":
+                # the symbolic witness interprets cos/acos freely; look for a concrete latitude near an NL transition on
+                # which the two implementations really differ (only a reproducing input is ever reported)
+                from spec import cpr as SCPR
+                for n in range(2, 60):
+                    for k in range(-40, 41):
+                        x = SCPR.T(n) + k * 2.5e-7
+                        for xx in (x, -x):
+                            c2, q2 = concrete_call(fn, (xx,), True), concrete_call(fn, (xx,), False)
+                            if c2[:2] != q2[:2]:
+                                args, c, q, bad = (xx,), c2, q2, True
+                                break
+                        if bad:
+                            break
+                    if bad:
+                        break
             return bad, {"fn": fn, "args": H.jsonable(args)}, "model of c_common.%s -> %r, py_common.%s -> %r" % (
                 fn, H.jsonable(c), fn, H.jsonable(q)), q
         item.prove(fn, p.pc, claim, replay)
